@@ -198,14 +198,21 @@ func streamCase(r *Recorder, kind string, w, rd streamEnd, writes, ks []int, cla
 // partially (sequential variant), or a Read is still in flight when the second handshake is
 // started and completes afterwards with such a record (overlap variant). The second connection's
 // reads must return exactly what was written on the second connection.
-func grpcReuseCase(r *Recorder, overlap bool, recLen, bufLen int) {
-	name := fmt.Sprintf("grpc-reuse:overlap=%v:rec=%d:buf=%d", overlap, recLen, bufLen)
+// With sameTransport the second handshake runs over the very transport object of the first (the
+// exported API allows it; the repo's own TestHandshake does so for its XX -> KK step).
+func grpcReuseCase(r *Recorder, pid string, overlap, sameTransport bool, recLen, bufLen int) {
+	name := fmt.Sprintf("grpc-reuse:overlap=%v:same-transport=%v:rec=%d:buf=%d", overlap, sameTransport, recLen, bufLen)
 	pass := []byte("pairing-phrase-entropy")
 	cliData := mailbox.NewConnData(&keychain.PrivKeyECDH{PrivKey: key(8101)}, nil, pass, nil, nil, nil)
 	srvData := mailbox.NewConnData(&keychain.PrivKeyECDH{PrivKey: key(8102)}, nil, pass, []byte("auth"), nil, nil)
 	cliNG, srvNG := mailbox.NewNoiseGrpcConn(cliData), mailbox.NewNoiseGrpcConn(srvData)
+	var pcc, psc *memConn
 	connect := func() (net.Conn, net.Conn, error) {
 		cc, sc := newMemPair()
+		if sameTransport && pcc != nil {
+			cc, sc = pcc, psc
+		}
+		pcc, psc = cc, sc
 		var c, s net.Conn
 		var ce, se error
 		var wg sync.WaitGroup
@@ -233,7 +240,7 @@ func grpcReuseCase(r *Recorder, overlap bool, recLen, bufLen int) {
 	}
 	c1, s1, err := connect()
 	if err != nil {
-		r.Violate("C15/setup", "first connection: "+err.Error(), name)
+		r.Violate(pid+"/setup", "first connection: "+err.Error(), name)
 		return
 	}
 	old := patterned(recLen, 31)
@@ -260,7 +267,7 @@ func grpcReuseCase(r *Recorder, overlap bool, recLen, bufLen int) {
 	<-readDone
 	r2 := <-second
 	if r2.err != nil {
-		r.Violate("C15/setup", "second connection: "+r2.err.Error(), name)
+		r.Violate(pid+"/setup", "second connection: "+r2.err.Error(), name)
 		return
 	}
 	fresh := patterned(50, 77)
@@ -274,10 +281,62 @@ func grpcReuseCase(r *Recorder, overlap bool, recLen, bufLen int) {
 	case <-time.After(20 * time.Second):
 	}
 	if !bytes.Equal(got[:n], fresh) {
-		r.Violate("C15/bytes-of-previous-connection", fmt.Sprintf("second connection on the same NoiseGrpcConn (first one: %d byte record read with a %d byte buffer, Read in flight during the second handshake: %v): wrote 50 bytes, first Read returned %d bytes, equal: false; starts with the old record's tail: %v",
-			recLen, bufLen, overlap, n, n > 0 && bytes.HasPrefix(old[bufLen:], got[:min(n, len(old)-bufLen)])), name)
+		r.Violate(pid+"/bytes-of-previous-connection", fmt.Sprintf("second connection on the same NoiseGrpcConn (first one: %d byte record read with a %d byte buffer, Read in flight during the second handshake: %v, same transport object: %v): wrote 50 bytes, first Read returned %d bytes, equal: false; starts with the old record's tail: %v",
+			recLen, bufLen, overlap, sameTransport, n, n > 0 && bytes.HasPrefix(old[bufLen:], got[:min(n, len(old)-bufLen)])), name)
 	}
 	r.Case(name, true, "grpc-object-reuse")
+}
+
+// grpcWriteErrorCase: the gRPC variant has no Flush of its own; a Write whose record could not be
+// put on the transport (the header write or the body write fails) reports an error, and whatever
+// the application does next - write the same bytes again, or go on with the next message - the
+// reader must be handed exactly the bytes whose Write was acknowledged.
+func grpcWriteErrorCase(r *Recorder, pid string, failWrite int, mode string) {
+	name := fmt.Sprintf("grpc-write-error:transport-write=%d:%s", failWrite, mode)
+	cli, srv, cc, sc := quickPair()
+	if cli.Err != nil || srv.Err != nil {
+		r.Violate(pid+"/setup", fmt.Sprint(cli.Err, srv.Err), name)
+		return
+	}
+	w := mailbox.VNewNoiseGrpcConn(cli.Data, cc, cli.Machine)
+	count := 0
+	cc.accept = func(n int) (int, error) {
+		count++
+		if count == failWrite {
+			return 0, errShortWrite
+		}
+		return n, nil
+	}
+	a, b, c := patterned(300, 1), patterned(500, 2), patterned(200, 3)
+	var acked []byte
+	var steps []string
+	write := func(tag string, p []byte) {
+		n, err := w.Write(p)
+		steps = append(steps, fmt.Sprintf("Write(%s)=%d,%v", tag, n, err))
+		if n > 0 && n <= len(p) {
+			acked = append(acked, p[:n]...)
+		}
+	}
+	write("A", a)
+	write("B", b)
+	if mode == "retry" {
+		write("B again", b)
+	}
+	write("C", c)
+	cc.wr.close()
+	var got []byte
+	for {
+		m, rerr := srv.Machine.ReadMessage(sc)
+		if rerr != nil {
+			break
+		}
+		got = append(got, m...)
+	}
+	if !bytes.Equal(got, acked) {
+		r.Violate(pid+"/write-error-delivers-unacknowledged", fmt.Sprintf("transport write #%d failed; application: %v; Write acknowledged %d bytes in all, the reader was handed %d bytes (acknowledged is a prefix of delivered: %v)",
+			failWrite, steps, len(acked), len(got), bytes.HasPrefix(got, acked)), name)
+	}
+	r.Case(name, true, "grpc-write-error")
 }
 
 func TestC15(t *testing.T) {
@@ -290,7 +349,15 @@ func TestC15(t *testing.T) {
 	}
 	for _, overlap := range []bool{false, true} {
 		for _, sz := range [][2]int{{1000, 100}, {40000, 4096}, {10, 1}} {
-			grpcReuseCase(r, overlap, sz[0], sz[1])
+			grpcReuseCase(r, "C15", overlap, false, sz[0], sz[1])
+		}
+	}
+	for _, sz := range [][2]int{{1000, 100}, {10, 1}} {
+		grpcReuseCase(r, "C15", false, true, sz[0], sz[1])
+	}
+	for _, fw := range []int{3, 4} {
+		for _, mode := range []string{"retry", "skip"} {
+			grpcWriteErrorCase(r, "C15", fw, mode)
 		}
 	}
 	rng := newRand(15)
